@@ -86,6 +86,9 @@ pub fn install_panic_hook() {
         let in_subject = IN_SUBJECT.with(|f| *f.borrow());
         if in_subject {
             LAST_PANIC.with(|p| *p.borrow_mut() = Some(text));
+        } else if text.contains("/repo/src/") {
+            // a subject call the harness did not wrap: the family runner turns it into a violation
+            LAST_PANIC.with(|p| *p.borrow_mut() = Some(text));
         } else {
             // a panic in the harness itself: machinery failure, make it loud
             eprintln!("MACHINERY PANIC: {}", text);
@@ -417,6 +420,29 @@ pub struct FamilyStat {
     pub wall_s: f64,
 }
 
+/// Breadcrumbs: which (family, index range) each worker thread is in, rewritten at every chunk start
+/// into the file named by DLTMC_CRUMBS.  If the engine process dies (stack overflow, abort, OOM kill)
+/// the driver bisects these ranges in child processes and reports the case that kills the process.
+static CRUMBS: Mutex<Vec<(String, u64, u64)>> = Mutex::new(Vec::new());
+fn crumb(slot: usize, family: &str, lo: u64, hi: u64) {
+    let path = match std::env::var("DLTMC_CRUMBS") {
+        Ok(p) => p,
+        Err(_) => return,
+    };
+    let mut c = CRUMBS.lock().unwrap();
+    while c.len() <= slot {
+        c.push((String::new(), 0, 0));
+    }
+    c[slot] = (family.to_string(), lo, hi);
+    let mut text = String::new();
+    for (f, a, b) in c.iter() {
+        if !f.is_empty() {
+            text.push_str(&format!("{}\t{}\t{}\n", f, a, b));
+        }
+    }
+    let _ = std::fs::write(&path, text);
+}
+
 pub struct Ctx {
     pub prop: String,
     pub tier: Tier,
@@ -441,6 +467,8 @@ pub struct Ctx {
     pub trace_default: AtomicU64,
     /// violations that did not reproduce when their case was executed again (reported, never a verdict)
     pub unreproducible: Mutex<Vec<String>>,
+    /// `--range family lo hi`: run only these cases of this family, in this thread (crash triage)
+    pub range: Option<(String, u64, u64)>,
 }
 
 const SHARDS: usize = 256;
@@ -477,6 +505,7 @@ impl Ctx {
             replay: None,
             trace_default: AtomicU64::new(0),
             unreproducible: Mutex::new(vec![]),
+            range: None,
         }
     }
     /// Enable the trace pass: every family is followed by a re-run of `budget` evenly spread cases
@@ -581,6 +610,31 @@ impl Ctx {
     /// pass is enabled, re-run an evenly spread subset with the log level at Trace.
     pub fn run_family(&self, fam: Family) {
         let budget = fam.trace_budget.unwrap_or_else(|| self.trace_default.load(Ordering::Relaxed));
+        if let Some((name, lo, hi)) = &self.range {
+            // crash triage: only the named cases, in this thread, no bookkeeping
+            let traced = format!("{}.trace", fam.name);
+            if *name == fam.name || *name == traced {
+                let is_trace = *name == traced;
+                let stride = if is_trace && budget > 0 { (fam.size / budget).max(1) } else { 1 };
+                if is_trace {
+                    install_sink_logger();
+                    log::set_max_level(log::LevelFilter::Trace);
+                }
+                // in a spawned thread: same (default) stack size as the worker threads of a normal run
+                std::thread::scope(|sc| {
+                    sc.spawn(|| {
+                        let mut loc = self.new_local(&fam.name, 0);
+                        loc.distinct = true;
+                        for j in *lo..(*hi).min(if is_trace { (fam.size + stride - 1) / stride } else { fam.size }) {
+                            loc.cur_index = j * stride;
+                            (fam.run)(j * stride, &mut loc);
+                        }
+                    });
+                });
+                log::set_max_level(log::LevelFilter::Off);
+            }
+            return;
+        }
         if let Some(rp) = &self.replay {
             let traced = format!("{}.trace", fam.name);
             if rp["family"].as_str() == Some(traced.as_str()) {
@@ -624,6 +678,21 @@ impl Ctx {
     }
 
     fn run_family_plain(&self, fam: Family) {
+        // safety net around every case: a panic raised inside dlt-core by a call the property module
+        // did not wrap is a violation (of "never panics"), not a crash of the checker; any other
+        // panic is a harness defect and propagates
+        fn run_case(fam: &Family, idx: u64, loc: &mut Local) {
+            if let Err(payload) = catch_unwind(AssertUnwindSafe(|| (fam.run)(idx, loc))) {
+                IN_SUBJECT.with(|f| *f.borrow_mut() = false);
+                match LAST_PANIC.with(|p| p.borrow_mut().take()) {
+                    Some(text) if text.contains("/repo/src/") => {
+                        let site = text.rsplit('@').next().unwrap_or("").trim().to_string();
+                        loc.violation(format!("dlt-core panics @ {}", site), format!("a call into dlt-core panicked while case {} of family {} was judged: {}", idx, fam.name, text), json!({"panic": text}));
+                    }
+                    _ => std::panic::resume_unwind(payload),
+                }
+            }
+        }
         if let Some(rp) = &self.replay {
             // replay mode: only the named family, only the recorded index
             if rp["family"].as_str() == Some(fam.name.as_str()) {
@@ -631,7 +700,7 @@ impl Ctx {
                 let mut loc = self.new_local(&fam.name, 1);
                 loc.cur_index = idx;
                 loc.replay_detail = rp.get("details").cloned();
-                (fam.run)(idx, &mut loc);
+                run_case(&fam, idx, &mut loc);
                 let stat = Mutex::new(FamilyStat::default());
                 self.absorb_local(&fam, &mut loc, &stat);
                 let st = stat.into_inner().unwrap();
@@ -656,8 +725,9 @@ impl Ctx {
         let nthreads = self.threads.min(((fam.size + chunk - 1) / chunk).max(1) as usize);
         let stop = AtomicBool::new(false);
         std::thread::scope(|s| {
-            for _ in 0..nthreads {
-                s.spawn(|| {
+            for slot in 0..nthreads {
+                let (next, stop, stat, fam) = (&next, &stop, &stat, &fam);
+                s.spawn(move || {
                     let mut loc = self.new_local(&fam.name, 1);
                     loc.distinct = fam.distinct_by_construction;
                     let mut confirmations = 0u32;
@@ -667,11 +737,12 @@ impl Ctx {
                             break;
                         }
                         let hi = (lo + chunk).min(fam.size);
+                        crumb(slot, &fam.name, lo, hi);
                         for idx in lo..hi {
                             loc.cur_index = idx;
                             let before = loc.viol_count;
                             let recorded = loc.violations.len();
-                            (fam.run)(idx, &mut loc);
+                            run_case(&fam, idx, &mut loc);
                             // before a violation is trusted the case is executed twice more: the same
                             // case must fail the same way every time (a divergence means nondeterminism
                             // the harness does not own, or a subject whose verdict depends on history)
@@ -683,7 +754,7 @@ impl Ctx {
                                     probe.distinct = true;
                                     probe.cur_index = idx;
                                     probe.input_hash_override = loc.input_hash_override;
-                                    (fam.run)(idx, &mut probe);
+                                    run_case(&fam, idx, &mut probe);
                                     if !probe.violations.iter().any(|v| v.key == key) {
                                         let d = loc.violations[recorded].description.chars().take(400).collect::<String>();
                                         self.unreproducible.lock().unwrap().push(format!("family {} index {} key [{}]: {}", fam.name, idx, key, d));
